@@ -13,7 +13,9 @@
 (* the extra strings of the trace (boundary-length and styled lines).                                        *)
 EXTENDS Integers, Sequences, FiniteSets, TLC, Json, IOUtils, SequencesExt
 
-LINE_CAP == 100
+\* the filter buffer: 100 bytes in the code.  FCAP (model-only runs) scales it down so that the proof of the clauses on the
+\* small domain also covers lines that fill the buffer, exactly and by one character too many
+LINE_CAP == IF "FCAP" \in DOMAIN IOEnv THEN atoi(IOEnv.FCAP) ELSE 100
 SigmaBig   == <<97, 65, 66, 91, 49, 32, 9, 44, 59, 37, 10, 13, 1, 33, 126, 128>>
 SigmaSmall == <<97, 65, 91, 49, 32, 9, 44, 59, 10, 1, 128>>
 Sigma == IF "FSIG" \in DOMAIN IOEnv /\ IOEnv.FSIG = "small" THEN SigmaSmall ELSE SigmaBig
@@ -38,7 +40,8 @@ Step(st, c) ==
 RECURSIVE Fil(_, _, _, _)
 Fil(s, i, st, out) ==
   IF i > Len(s) \/ IsStop(s[i]) THEN [ret |-> i - 1, out |-> out, st |-> st]
-  ELSE IF Len(out) >= LINE_CAP - 1 THEN [ret |-> -1, out |-> out, st |-> st]
+  \* the buffer is full: what would be dropped anyway (blanks and control characters behind the mnemonic) is still consumed
+  ELSE IF Len(out) >= LINE_CAP - 1 THEN (IF st # "BEGIN" /\ s[i] <= 33 THEN Fil(s, i + 1, st, out) ELSE [ret |-> -1, out |-> out, st |-> st])
   ELSE LET x == Step(st, s[i]) IN
        IF s[i] > 126 THEN [ret |-> -1, out |-> out \o x.keep, st |-> x.st] ELSE Fil(s, i + 1, x.st, out \o x.keep)
 Filter(s) == Fil(s, 1, "BEGIN", <<>>)
@@ -57,7 +60,15 @@ BlankWhy(F(_), s) ==
        /\ (StateAfter(s, k) \in {"BEGIN", "SPACE"} \/ (StateAfter(s, k) = "FIRST" /\ (AtEnd(s, k) \/ IsBlank(s[k + 1]))))
        \* (a blank right after the mnemonic at the end of the line is kept as the - harmless - separator)
        /\ F(Ins(s, k, b)).out # (IF StateAfter(s, k) = "FIRST" /\ AtEnd(s, k) THEN F(s).out \o <<32>> ELSE F(s).out)
-  THEN "C16:blank-changes-the-line" ELSE ""
+       \* (... which a mnemonic that fills the buffer has no room for: then it is dropped)
+       /\ ~(StateAfter(s, k) = "FIRST" /\ AtEnd(s, k) /\ Len(F(s).out) = LINE_CAP - 1 /\ F(Ins(s, k, b)).out = F(s).out)
+  THEN "C16:blank-changes-the-line"
+  \* ... nor whether the line is accepted
+  ELSE IF \E k \in 0..Len(s), b \in {32, 9} :
+       /\ Len(s) < N /\ F(s).ret >= 0
+       /\ (StateAfter(s, k) \in {"BEGIN", "SPACE"} \/ (StateAfter(s, k) = "FIRST" /\ (AtEnd(s, k) \/ IsBlank(s[k + 1]))))
+       /\ F(Ins(s, k, b)).ret < 0
+  THEN "C16:blank-makes-the-line-rejected" ELSE ""
 CaseWhy(F(_), s) ==
   IF \E k \in 1..Len(s) : LET t == [s EXCEPT ![k] = Swap(s[k])] IN t \in Dom /\ F(s).ret >= 0 /\ (F(t).out # F(s).out \/ F(t).ret # F(s).ret)
   THEN "C16:letter-case-changes-the-line" ELSE ""
